@@ -71,14 +71,14 @@ func (x *Xlat) havocLoop(st *State, fr *Frame, out *Outcomes, nodes ...ast.Node)
 		for _, k := range sortedKeys(ef.regions) {
 			x.havocRegion(st, k)
 		}
-		for v := range ef.assigned {
+		for _, v := range sortedVars(ef.assigned) {
 			if k, _, ok := fr.lookupVar(v); ok {
 				if _, ok := st.env[k]; ok {
 					st.env[k] = x.freshTyped(st, k, v.Type())
 				}
 			}
 		}
-		for v := range ef.refVars {
+		for _, v := range sortedVars(ef.refVars) {
 			if p, ok := fr.lookupRefParam(v); ok {
 				x.havocPlace(st, out, p, n.Pos())
 			}
